@@ -642,12 +642,17 @@ def loop_bound(fn, count, path=None, whole=None, db=None):
     works); the step is checked on the IR.  `whole` is the element count of the container for range-for / begin-end loops."""
     bodies = [fn['body']]
     if db is not None:
-        seen = set()
-        for c in ir.calls(fn['body']):
-            cal = db.callee(fn, c)
-            if cal is not None and 'body' in cal and inline_helpers(cal, c) and id(cal) not in seen:
-                seen.add(id(cal))
-                bodies.append(cal['body'])
+        seen = {id(fn)}
+        work = [(fn, 0)]
+        while work:
+            g, depth = work.pop()
+            for c in ir.calls(g['body']):
+                cal = db.callee(g, c)
+                if cal is not None and 'body' in cal and inline_helpers(cal, c) and id(cal) not in seen and depth < 6 and \
+                        cal.get('rec') == fn.get('rec'):
+                    seen.add(id(cal))
+                    bodies.append(cal['body'])
+                    work.append((cal, depth + 1))
     loops = [y for b in bodies for y in ir.walk(b) if y.get('k') in ('for', 'while', 'rfor', 'do')]
     if len(loops) != 1:
         return False, 'expected exactly one element loop, found %d' % len(loops)
@@ -733,11 +738,17 @@ def loop_bound(fn, count, path=None, whole=None, db=None):
     # bound: from the loop-entry condition on the symbolic path when available, else from the IR
     got = None
     if path is not None:
+        # the loop-entry condition with the loop variable at its initial value 0: `0 < B` (or `0 != B` for != loops); an
+        # ordering comparison is preferred over a disequality so that unrelated `k != x` tests on the path are not mistaken for it
+        cands = {'<': [], '!=': []}
         for cc, sense in path.conds:
             if isinstance(cc, Cmp) and sense and cc.op0 in ('<', '!=', '>'):
                 lo, hi = (cc.lhs, cc.rhs) if cc.op0 != '>' else (cc.rhs, cc.lhs)
                 if lo == Poly.const(0):
-                    got = repr(hi)
+                    cands['!=' if cc.op0 == '!=' else '<'].append(repr(hi))
+        want_op = '<' if c['op'] in ('<', '>') else '!='
+        if cands[want_op]:
+            got = want if want in cands[want_op] else cands[want_op][0]
     if got is None:
         if r.get('k') == 'ref' and r.get('dk') == 'local':
             got = 'd:%s' % r['n']
@@ -984,9 +995,12 @@ def size_rules_for(chk, db, fn, k, R, winfo):
                         if y.get('k') == 'bin' and y['op'] in ('+=', '='):
                             tgt = ir.strip_all_casts(y['l'])
                             if y['op'] == '=':
-                                rhs = ir.strip_all_casts(y['r'])
-                                if not (rhs.get('k') == 'bin' and rhs['op'] == '+' and tgt.get('id') is not None and
-                                        tgt.get('id') in (ir.strip_all_casts(rhs['l']).get('id'), ir.strip_all_casts(rhs['r']).get('id'))):
+                                def leaves(x):
+                                    x = ir.strip_all_casts(x)
+                                    if x.get('k') == 'bin' and x['op'] == '+':
+                                        return leaves(x['l']) + leaves(x['r'])
+                                    return [x]
+                                if tgt.get('id') is None or tgt.get('id') not in [l.get('id') for l in leaves(y['r'])] or len(leaves(y['r'])) < 2:
                                     continue
                             if tgt.get('k') == 'ref' and tgt.get('dk') == 'local':
                                 acc_t = termx.tname(tgt.get('t'))
